@@ -1,357 +1,146 @@
 (* Bounded-domain completion theorems for the closed system of Proofs/TcpNetP.v (two Model.Tcp
    endpoints and a network that hands an endpoint a copy of any frame the other has emitted).
+   Definitions, the link to TcpNetP.sys_run and the reading lemmas are in Proofs/TcpSysLiveBaseP.v; the
+   evaluations (vm_compute over forallb) in Proofs/TcpSysLive1P.v, TcpSysLive2P.v, TcpSysLiveZwP.v
+   (compiled in parallel); this file combines them.
 
-   1. [isys_run_sys_run]: the incremental system of Model/TcpSys.v IS the closed system: its state
-      after a move list is (run a0 ea, run_out a0 ea, run b0 eb, run_out b0 eb) for
-      (ea, eb) = TcpNetP.sys_run a0 b0 ms.
-   2. [pump_is_schedule]: whatever the fair pump with drops does is a schedule of that closed
-      system: its final system state is the closed-system state under the move list it recorded.
-   3. FINITE-DOMAIN theorems, proved by evaluating the pump (vm_compute over forallb, lifted with
-      forallb_forall).  They are statements about an explicit finite list of connections, scenarios
-      and drop sets - NOT the unbounded liveness claim ("eventually" under every fair network); the
-      unbounded safety / progress theorems of C02 are in Proofs/TcpClose*P.v and stay as they are.
-        domain: 3 connections established by Model/TcpEst.v ([est_pair]: initial sequence numbers
-                adjacent to 2^32 and 2^31 on either side and ordinary ones; MTU 80..120; buffers
-                1000..4096; timestamps on; SACK off / on)
-              x 4 close orders (A first / B first / simultaneous / duplex; half-close then data the
-                other way when w2 > 0)
-              x w1 in {0, 1, mss, 2*mss+3 in two chunks} x w2 in {0, 5}            (96 scenarios)
-              x EVERY drop set of at most two frames among the first K = 12 frames of either side
-                (301 drop sets; no run that ends closed/closed emits more than 12 frames per side,
-                so in those runs the drop sets range over every frame)             (28 896 pumped runs)
-      Loss of handshake packets is outside this domain (the runs start from established states).
-      Outcome, for every element of the domain: the pump stops within the move budget, everything
-      written is delivered, followed by end of stream, in both directions, and EITHER both endpoints
-      end closed and no reset was emitted, OR the drop set contains the last frame emitted by an
-      endpoint that reached the closed state (the acknowledgement completing the exchange: there
-      is no TIME-WAIT state, a closed endpoint ignores every later segment) and then its peer fails
-      explicitly at the retransmission limit (error state, exactly one reset).
-      A second domain (end of the file) repeats the enumeration for a connection whose receiver's
-      window closes during the transfer (64-byte receive buffer; 9 632 runs): same outcomes, plus the
-      known zero-window stall when a window update is lost.
-      Refuted: "every single drop is recovered to closed/closed" (witness: the final ACK), and -
-      the KNOWN finding C02-zero-window-stall on two endpoints - "a lost window update is recovered"
-      (witness: a 64-byte receive buffer, 80 bytes written, the window-reopening ACK dropped: both
-      endpoints stay connected for ever, 16 bytes queued, no timer). *)
+   These are FINITE-DOMAIN theorems, proved by evaluating the fair pump with drops (Model/TcpSys.v)
+   on the model.  They are statements about an explicit finite list of connections, scenarios and
+   drop sets - NOT the unbounded liveness claim ("eventually" under every fair network); the
+   unbounded safety / progress theorems of C02 are in Proofs/TcpClose*P.v and stay as they are.
+   Loss of HANDSHAKE packets is outside the domain (the runs start from established states).
+
+     connection 1 (A's / B's initial sequence numbers 6 below 2^32 / 8 below 2^31, MTU 88, 4096-byte
+           buffers, timestamps, no SACK; established by Model/TcpEst.v est_pair)
+           x 4 close orders (A first / B first / simultaneous / duplex; half-close then data the
+             other way when w2 > 0)
+           x w1 in {0, mss, 2*mss+3 in two chunks} x w2 in {0, 5}                    (24 scenarios)
+           x EVERY drop set of [dsets]: the empty set, every single packet of the (loss-free)
+             exchange, every pair of packets of the exchange, every pair of a packet of the exchange
+             and one of the next 4 frames of either side (frames that exist only in lossy runs:
+             the retransmission, i.e. the same packet lost again, or a provoked acknowledgement)
+                                                                              (2 708 pumped runs)
+       Outcome, for every element: the pump stops within the move budget; everything written is
+       delivered, followed by end of stream, in both directions; and EITHER both endpoints end
+       closed, no reset was emitted, and neither side emitted more than 4 frames beyond its
+       loss-free count (so the drop sets reached every frame of the run), OR the drop set contains
+       the last frame emitted by an endpoint that reached the closed state (the acknowledgement
+       completing the exchange: there is no TIME-WAIT state, a closed endpoint ignores every later
+       segment) and then its peer fails explicitly at the retransmission limit (error state,
+       exactly one reset).
+     connection 2 (2^31-1 / 2^32-1, MTU 120 / 100, buffers 1000 / 4096, timestamps, SACK): the same 24
+           scenarios x every SINGLE packet of the exchange dropped (224 runs): same outcome.
+     closing-window connection (receiver's buffer 64 bytes) x 4 close orders x w1 = 80 x w2 in
+           {0, 5} (8 scenarios) x the drop sets of [dsets] (1 404 runs; the drop sets also hit
+           window updates): as above, or the run ends in the KNOWN zero-window stall (an endpoint
+           connected with data queued behind a zero window, nothing in flight, no timer).
+     Refuted: "every single drop is recovered to closed/closed" (witness: the final ACK), and - the
+       known finding on two endpoints - "a lost window update is recovered". *)
 From Coq Require Import ZArith List Bool Lia.
 From NP Require Import Model.Seqnum Model.Tcp Model.TcpHs Model.TcpEst Proofs.TcpNetP Model.TcpSys.
+From NP Require Import Proofs.TcpSysLiveBaseP Proofs.TcpSysLive1P Proofs.TcpSysLive2P Proofs.TcpSysLiveZwP.
 Import ListNotations.
 Open Scope Z_scope.
 
-(* ---------------------------------------------------------------- 1. incremental = closed system *)
+(* the domains are what the header says they are, and the connections are real results of est_pair *)
+Example domain_connections : opt1 = Some cfg1 /\ opt2 = Some cfg2 /\ zw_cfg = Some zw_pair.
+Proof. vm_compute. repeat split; reflexivity. Qed.
 
-Definition sys_of (a0 b0 : tcp) (s : list event * list event) : sys :=
-  mkSys (run a0 (fst s)) (run_out a0 (fst s)) (run b0 (snd s)) (run_out b0 (snd s)).
-
-Lemma run_snoc t es e : run t (es ++ [e]) = fst (step (run t es) e).
-Proof. rewrite run_app. reflexivity. Qed.
-
-Lemma run_out_snoc t es e : run_out t (es ++ [e]) = run_out t es ++ out (fst (step (run t es) e)).
-Proof. rewrite run_out_app. cbn [run_out]. rewrite app_nil_r. reflexivity. Qed.
-
-Lemma isys_step_sys_step a0 b0 s m :
-  fst (isys_step (sys_of a0 b0 s) m) = sys_of a0 b0 (sys_step a0 b0 s m).
-Proof.
-  destruct s as [ea eb]. unfold sys_of. destruct m as [a|a|k ts te rto|k ts te rto];
-    cbn [sys_step isys_step fst snd sA oA sB oB].
-  - destruct (step (run a0 ea) (ev_of a)) as [t r] eqn:E. cbn [fst snd].
-    rewrite run_snoc, run_out_snoc, E. reflexivity.
-  - destruct (step (run b0 eb) (ev_of a)) as [t r] eqn:E. cbn [fst snd].
-    rewrite run_snoc, run_out_snoc, E. reflexivity.
-  - destruct (nth_error (run_out a0 ea) k) as [f|]; [|reflexivity].
-    destruct (step (run b0 eb) (ESeg (seg_of f ts te) rto)) as [t r] eqn:E. cbn [fst snd].
-    rewrite run_snoc, run_out_snoc, E. reflexivity.
-  - destruct (nth_error (run_out b0 eb) k) as [f|]; [|reflexivity].
-    destruct (step (run a0 ea) (ESeg (seg_of f ts te) rto)) as [t r] eqn:E. cbn [fst snd].
-    rewrite run_snoc, run_out_snoc, E. reflexivity.
-Qed.
-
-Lemma isys_fold a0 b0 ms : forall s,
-  fold_left (fun s m => fst (isys_step s m)) ms (sys_of a0 b0 s) =
-  sys_of a0 b0 (fold_left (sys_step a0 b0) ms s).
-Proof.
-  induction ms as [|m ms IH]; intros s; cbn [fold_left]; [reflexivity|].
-  rewrite isys_step_sys_step. apply IH.
-Qed.
-
-(* the incremental system after a move list is the closed system of TcpNetP after the same list:
-   endpoint states = [run x0 evX], frames emitted so far = [run_out x0 evX] *)
-Lemma isys_run_sys_run a0 b0 ms : isys_run a0 b0 ms = sys_of a0 b0 (sys_run a0 b0 ms).
-Proof. unfold isys_run, sys_run. exact (isys_fold a0 b0 ms ([], [])). Qed.
-
-(* ---------------------------------------------------------------- 2. the pump plays a schedule *)
-
-Definition wf (a0 b0 : tcp) (p : pst) : Prop := p_sys p = isys_run a0 b0 (rev (p_moves p)).
-(* q differs from p at most in the application / pointer / done bookkeeping *)
-Definition same (p q : pst) : Prop := p_sys q = p_sys p /\ p_moves q = p_moves p.
-
-Lemma wf_same a0 b0 p q : same p q -> wf a0 b0 p -> wf a0 b0 q.
-Proof. intros [E1 E2] H. unfold wf in *. rewrite E1, E2. exact H. Qed.
-
-Lemma wf_do_move a0 b0 p m : wf a0 b0 p -> wf a0 b0 (fst (do_move p m)).
-Proof.
-  unfold wf, do_move. intros H. destruct (isys_step (p_sys p) m) as [s r] eqn:E. cbn [fst p_sys p_moves rev].
-  unfold isys_run in *. rewrite fold_left_app. cbn [fold_left]. rewrite <- H, E. reflexivity.
-Qed.
-
-Lemma wf_one_app a0 b0 forA p : wf a0 b0 p -> wf a0 b0 (fst (one_app forA p)).
-Proof.
-  intros H. unfold one_app.
-  destruct (a_todo (if forA then p_appA p else p_appB p)) as [|o rest]; [exact H|].
-  destruct (can_proceed _ o); [|exact H].
-  pose proof (wf_do_move a0 b0 p (if forA then MAppA (aev_of o) else MAppB (aev_of o)) H) as H1.
-  destruct (do_move p _) as [p1 r]. cbn [fst] in *.
-  destruct forA; cbn [fst]; (eapply wf_same; [|exact H1]); split; reflexivity.
-Qed.
-
-Lemma wf_app_burst a0 b0 forA : forall fuel p any, wf a0 b0 p -> wf a0 b0 (fst (app_burst fuel forA p any)).
-Proof.
-  induction fuel as [|f IH]; intros p any H; cbn [app_burst]; [exact H|].
-  pose proof (wf_one_app a0 b0 forA p H) as H1.
-  destruct (one_app forA p) as [p1 ok]. cbn [fst] in H1. destruct ok; [apply IH; exact H1|exact H].
-Qed.
-
-Lemma wf_apps a0 b0 b p : wf a0 b0 p -> wf a0 b0 (fst (apps b p)).
-Proof.
-  intros H. unfold apps. destruct b.
-  - pose proof (wf_app_burst a0 b0 true 64 p false H) as H1.
-    destruct (app_burst 64 true p false) as [p1 x]. cbn [fst] in H1.
-    pose proof (wf_app_burst a0 b0 false 64 p1 false H1) as H2.
-    destruct (app_burst 64 false p1 false) as [p2 y]. exact H2.
-  - pose proof (wf_one_app a0 b0 true p H) as H1.
-    destruct (one_app true p) as [p1 x]. cbn [fst] in H1.
-    pose proof (wf_one_app a0 b0 false p1 H1) as H2.
-    destruct (one_app false p1) as [p2 y]. exact H2.
-Qed.
-
-Lemma wf_net_range a0 b0 orc ds fromA : forall n p, wf a0 b0 p -> wf a0 b0 (net_range orc ds fromA n p).
-Proof.
-  induction n as [|n IH]; intros p H; cbn [net_range]; [exact H|].
-  apply IH.
-  set (k := if fromA then p_nA p else p_nB p).
-  assert (H1 : wf a0 b0 (if dropped ds fromA k then p
-                        else fst (do_move p (if fromA then MDeliverB k (or_ts orc) (or_tsecr orc) (or_rto orc)
-                                             else MDeliverA k (or_ts orc) (or_tsecr orc) (or_rto orc))))).
-  { destruct (dropped ds fromA k); [exact H|apply wf_do_move; exact H]. }
-  destruct fromA; (eapply wf_same; [|exact H1]); split; reflexivity.
-Qed.
-
-Lemma wf_net a0 b0 orc ds p : wf a0 b0 p -> wf a0 b0 (fst (net orc ds p)).
-Proof. intros H. unfold net. cbn [fst]. apply wf_net_range. apply wf_net_range. exact H. Qed.
-
-Lemma wf_rto_side a0 b0 forA p : wf a0 b0 p -> wf a0 b0 (fst (rto_side forA p)).
-Proof.
-  intros H. unfold rto_side.
-  destruct ((estate _ =? stConnected) && negb (tstate _ =? tDisabled)); cbn [fst]; [apply wf_do_move|]; exact H.
-Qed.
-
-Lemma wf_pump a0 b0 orc ds b : forall fuel p, wf a0 b0 p -> wf a0 b0 (pump fuel orc ds b p).
-Proof.
-  induction fuel as [|f IH]; intros p H; cbn [pump]; [exact H|].
-  pose proof (wf_apps a0 b0 b p H) as H1. destruct (apps b p) as [p1 x]. cbn [fst] in H1.
-  pose proof (wf_net a0 b0 orc ds p1 H1) as H2. destruct (net orc ds p1) as [p2 y]. cbn [fst] in H2.
-  destruct (x || y); [apply IH; exact H2|].
-  pose proof (wf_rto_side a0 b0 true p2 H2) as H3. destruct (rto_side true p2) as [p3 u]. cbn [fst] in H3.
-  pose proof (wf_rto_side a0 b0 false p3 H3) as H4. destruct (rto_side false p3) as [p4 v]. cbn [fst] in H4.
-  destruct (u || v); [apply IH; exact H4|].
-  eapply wf_same; [|exact H4]. split; reflexivity.
-Qed.
-
-(* the state a pumped run ends in is the state of the closed system of TcpNetP under the schedule
-   the pump recorded: drops are frames the schedule never delivers, everything else it does is a
-   move of that system *)
-Lemma pump_is_schedule fuel orc a0 b0 sc ds :
-  let p := pump_run fuel orc a0 b0 sc ds in
-  p_sys p = sys_of a0 b0 (sys_run a0 b0 (rev (p_moves p))).
-Proof.
-  cbn zeta. rewrite <- isys_run_sys_run. apply wf_pump. reflexivity.
-Qed.
-
-(* ---------------------------------------------------------------- 3. the finite domain *)
-
-(* what the network says about a delivered segment in these runs: a timestamp option with a non-zero
-   echo (both stacks of this implementation negotiate timestamps), RTT sample at the 200 ms floor *)
-Definition orc : oracle := mkOr true true minRTO.
-
-Definition opt_pairs : list (option (tcp * tcp)) :=
-  [est_pair 4294967290 2147483640 88 88 4096 4096 4096 4096 false false;
-   est_pair 2147483647 4294967295 100 80 1000 4096 4096 1000 false false;
-   est_pair 12345678 3445650051 120 120 2048 2048 2048 2048 true true].
-
-Definition configs : list (tcp * tcp) :=
-  flat_map (fun o => match o with Some p => [p] | None => [] end) opt_pairs.
-
-Definition scens (c : tcp * tcp) : list scen :=
-  let mss := maxPayload (SN (fst c)) in
-  flat_map (fun order =>
-    flat_map (fun w1c => map (fun w2 => scenario order (fst w1c) (snd w1c) w2) [0; 5])
-             [(0, 1%nat); (1, 1%nat); (mss, 1%nat); (2 * mss + 3, 2%nat)])
-    [0; 1; 2; 3].
-
-Definition K : nat := 12.
-Definition budget : nat := 200.   (* pump rounds *)
-
-(* the drop set contains the last frame emitted by an endpoint that reached the closed state *)
-Definition lost_final (p : pst) (ds : dropset) : bool :=
-  ((estate (sA (p_sys p)) =? stClosed) && dropped ds true (length (oA (p_sys p)) - 1)) ||
-  ((estate (sB (p_sys p)) =? stClosed) && dropped ds false (length (oB (p_sys p)) - 1)).
-
-Definition nrst (p : pst) : nat :=
-  length (filter (fun f => has (f_flags f) fRst) (oA (p_sys p) ++ oB (p_sys p))).
-
-(* one endpoint closed, the other failed: error state, exactly one reset emitted in the whole run *)
-Definition explicit_failure (p : pst) : bool :=
-  (((estate (sA (p_sys p)) =? stClosed) && (estate (sB (p_sys p)) =? stError)) ||
-   ((estate (sB (p_sys p)) =? stClosed) && (estate (sA (p_sys p)) =? stError))) && Nat.eqb (nrst p) 1.
-
-Definition closed_closed (p : pst) : bool :=
-  (estate (sA (p_sys p)) =? stClosed) && (estate (sB (p_sys p)) =? stClosed) &&
-  no_rst (oA (p_sys p)) && no_rst (oB (p_sys p)) &&
-  Nat.leb (length (oA (p_sys p))) K && Nat.leb (length (oB (p_sys p))) K.
-
-(* the verdict on a finished pumped run *)
-Definition verdict (p : pst) (ds : dropset) : bool :=
-  p_done p && delivered p &&
-  ((closed_closed p && negb (lost_final p ds)) || (lost_final p ds && explicit_failure p)).
-
-Definition check (c : tcp * tcp) (sc : scen) (ds : dropset) : bool :=
-  verdict (pump_run budget orc (fst c) (snd c) sc ds) ds.
-
-(* membership in three nested forallb's, for abstract lists and an abstract test (nothing is
-   evaluated when this lemma is instantiated) *)
-Lemma forallb3 {A B C} (la : list A) (fb : A -> list B) (lc : list C) (chk : A -> B -> C -> bool) :
-  forallb (fun a => forallb (fun b => forallb (chk a b) lc) (fb a)) la = true ->
-  forall a b c, In a la -> In b (fb a) -> In c lc -> chk a b c = true.
-Proof.
-  intros H a b c Ha Hb Hc.
-  rewrite forallb_forall in H. specialize (H a Ha). cbv beta in H.
-  rewrite forallb_forall in H. specialize (H b Hb). cbv beta in H.
-  rewrite forallb_forall in H. exact (H c Hc).
-Qed.
-
-(* THE computation: 3 x 32 x 301 pumped runs of the model, evaluated once by the kernel's VM *)
-Lemma check_all_true :
-  forallb (fun a => forallb (fun b => forallb (check a b) (drop_sets K)) (scens a)) configs = true.
-Proof. vm_cast_no_check (eq_refl true). Qed.
-
-(* the domain is what the header says it is *)
 Example domain_size :
-  length configs = 3%nat /\ Forall (fun c => length (scens c) = 32%nat) configs /\ length (drop_sets K) = 301%nat.
+  Forall (fun c => length (scens c) = 24%nat) configs /\ length zw_scens = 8%nat /\
+  fold_left Nat.add (map (fun sc => length (dsets cfg1 sc)) (scens cfg1)) 0%nat = 2708%nat /\
+  fold_left Nat.add (map (fun sc => length (singles cfg2 sc)) (scens cfg2)) 0%nat = 224%nat /\
+  fold_left Nat.add (map (fun sc => length (dsets zw_pair sc)) zw_scens) 0%nat = 1404%nat.
 Proof. vm_compute. repeat constructor. Qed.
 
 Example domain_initial_sequence_numbers :
   map (fun c => (sndUna (SN (fst c)), sndUna (SN (snd c)), maxPayload (SN (fst c)), maxPayload (SN (snd c)), tsOk (fst c))) configs =
-  [(4294967291, 2147483641, 36, 36, true); (2147483648, 0, 40, 28, true); (12345679, 3445650052, 40, 40, true)].
+  [(4294967291, 2147483641, 36, 36, true); (2147483648, 0, 40, 20, true)].
 Proof. vm_compute. reflexivity. Qed.
 
-Lemma delivered_spec p : delivered p = true ->
-  a_rd (p_appB p) = a_wr (p_appA p) /\ a_rd (p_appA p) = a_wr (p_appB p) /\
-  a_eof (p_appA p) = true /\ a_eof (p_appB p) = true /\
-  a_fail (p_appA p) = false /\ a_fail (p_appB p) = false /\
-  a_todo (p_appA p) = [] /\ a_todo (p_appB p) = [].
-Proof.
-  unfold delivered. intros H.
-  repeat (apply andb_prop in H; destruct H as [H ?]).
-  assert (Z : forall a b, zeqb a b = true -> a = b).
-  { induction a as [|x a IH]; destruct b as [|y b]; cbn; intros E; try discriminate; [reflexivity|].
-    apply andb_prop in E. destruct E as [E1 E2]. apply Z.eqb_eq in E1. rewrite E1, (IH b E2). reflexivity. }
-  assert (N : forall (l : list pop), Nat.eqb (length l) 0 = true -> l = []) by (intros [|? ?]; cbn; [reflexivity|discriminate]).
-  repeat split; auto using negb_true_iff.
-  all: try (apply negb_true_iff; assumption).
-Qed.
-
-(* used by rewriting: the kernel must never be asked to CONVERT terms that contain a pumped run of
-   symbolic inputs (it would execute the pump symbolically) *)
-Lemma check_unfold c sc ds : check c sc ds = verdict (pump_run budget orc (fst c) (snd c) sc ds) ds.
-Proof. reflexivity. Qed.
-
-Lemma check_lookup c sc ds : In c configs -> In sc (scens c) -> In ds (drop_sets K) -> check c sc ds = true.
-Proof. exact (forallb3 configs scens (drop_sets K) check check_all_true c sc ds). Qed.
-
-(* reading the boolean verdict (p is any pumped state: nothing is evaluated here) *)
-Lemma verdict_spec (p : pst) (ds : dropset) :
-  verdict p ds = true ->
-  p_done p = true /\
-  a_rd (p_appB p) = a_wr (p_appA p) /\ a_rd (p_appA p) = a_wr (p_appB p) /\
-  a_eof (p_appA p) = true /\ a_eof (p_appB p) = true /\
-  ((estate (sA (p_sys p)) = stClosed /\ estate (sB (p_sys p)) = stClosed /\
-    no_rst (oA (p_sys p)) = true /\ no_rst (oB (p_sys p)) = true /\
-    (length (oA (p_sys p)) <= K)%nat /\ (length (oB (p_sys p)) <= K)%nat /\ lost_final p ds = false)
-   \/
-   (lost_final p ds = true /\ explicit_failure p = true)).
-Proof.
-  unfold verdict. intros H.
-  apply andb_prop in H. destruct H as [H O]. apply andb_prop in H. destruct H as [D1 D2].
-  destruct (delivered_spec p D2) as (R1 & R2 & E1 & E2 & _).
-  split; [exact D1|]. split; [exact R1|]. split; [exact R2|]. split; [exact E1|]. split; [exact E2|].
-  apply orb_prop in O. destruct O as [O|O]; apply andb_prop in O; destruct O as [O1 O2].
-  - left. unfold closed_closed in O1.
-    apply andb_prop in O1. destruct O1 as [O1 L2]. apply andb_prop in O1. destruct O1 as [O1 L1].
-    apply andb_prop in O1. destruct O1 as [O1 N2]. apply andb_prop in O1. destruct O1 as [O1 N1].
-    apply andb_prop in O1. destruct O1 as [C1 C2].
-    apply Z.eqb_eq in C1. apply Z.eqb_eq in C2. apply Nat.leb_le in L1. apply Nat.leb_le in L2.
-    apply negb_true_iff in O2. repeat split; assumption.
-  - right. split; assumption.
-Qed.
-
-Lemma verdict_recovered (p : pst) (ds : dropset) :
-  verdict p ds = true ->
-  lost_final p ds = false -> recovered p = true.
-Proof.
-  unfold verdict. intros H HL. rewrite HL in H. cbn [negb andb] in H. rewrite orb_false_r, andb_true_r in H.
-  apply andb_prop in H. destruct H as [H O]. apply andb_prop in H. destruct H as [D1 D2].
-  unfold closed_closed in O.
-  apply andb_prop in O. destruct O as [O L2]. apply andb_prop in O. destruct O as [O L1].
-  apply andb_prop in O. destruct O as [O N2]. apply andb_prop in O. destruct O as [O N1].
-  apply andb_prop in O. destruct O as [C1 C2].
-  unfold recovered. rewrite D1, D2, C1, C2, N1, N2. reflexivity.
-Qed.
-
-(* the bounded-domain theorem: every drop set of at most two frames (among the first 12 of either
-   side), every scenario and connection of the list *)
+(* the bounded-domain theorem: connection 1, every scenario, every drop set of at most two frames
+   with at least one packet of the loss-free exchange *)
 Theorem single_and_double_drops_outcome_bounded :
-  forall c sc ds, In c configs -> In sc (scens c) -> In ds (drop_sets K) ->
-  let p := pump_run budget orc (fst c) (snd c) sc ds in
+  forall sc ds, In sc (scens cfg1) -> In ds (dsets cfg1 sc) ->
+  let p := pump_run budget orc (fst cfg1) (snd cfg1) sc ds in
   (* the pump stopped within the move budget because nothing could happen any more *)
   p_done p = true /\
   (* everything written was delivered, then end of stream, in both directions *)
   a_rd (p_appB p) = a_wr (p_appA p) /\ a_rd (p_appA p) = a_wr (p_appB p) /\
   a_eof (p_appA p) = true /\ a_eof (p_appB p) = true /\
-  (* and either both endpoints ended closed, without any reset (and with at most K frames each) ... *)
+  (* and either both endpoints ended closed, without any reset (and each side emitted at most
+     margin frames more than in the loss-free run) ... *)
   ((estate (sA (p_sys p)) = stClosed /\ estate (sB (p_sys p)) = stClosed /\
     no_rst (oA (p_sys p)) = true /\ no_rst (oB (p_sys p)) = true /\
-    (length (oA (p_sys p)) <= K)%nat /\ (length (oB (p_sys p)) <= K)%nat /\ lost_final p ds = false)
+    (length (oA (p_sys p)) <= margin + fst (nfr cfg1 sc))%nat /\
+    (length (oB (p_sys p)) <= margin + snd (nfr cfg1 sc))%nat /\ lost_final p ds = false)
    \/
    (* ... or the last frame of an endpoint that closed was dropped, and its peer failed explicitly *)
    (lost_final p ds = true /\ explicit_failure p = true)).
 Proof.
-  intros c sc ds Hc Hs Hd.
-  pose proof (check_lookup c sc ds Hc Hs Hd) as H. rewrite check_unfold in H.
-  cbv zeta. exact (verdict_spec _ _ H).
+  intros sc ds Hs Hd.
+  pose proof (forallb2d (scens cfg1) (dsets cfg1) (run_ok cfg1) all_runs_ok_cfg1 sc ds Hs Hd) as H.
+  rewrite run_ok_unfold in H. cbv zeta. exact (verdict_spec _ _ _ _ H).
 Qed.
 
 (* the same, read as a recovery statement: whenever the run did not lose the last frame of an
    endpoint that closed, it ends closed/closed with everything delivered and no reset *)
 Theorem single_and_double_drops_recovered_bounded :
-  forall c sc ds, In c configs -> In sc (scens c) -> In ds (drop_sets K) ->
-  let p := pump_run budget orc (fst c) (snd c) sc ds in
+  forall sc ds, In sc (scens cfg1) -> In ds (dsets cfg1 sc) ->
+  let p := pump_run budget orc (fst cfg1) (snd cfg1) sc ds in
   lost_final p ds = false -> recovered p = true.
 Proof.
-  intros c sc ds Hc Hs Hd.
-  pose proof (check_lookup c sc ds Hc Hs Hd) as H. rewrite check_unfold in H.
-  cbv zeta. exact (verdict_recovered _ _ H).
+  intros sc ds Hs Hd.
+  pose proof (forallb2d (scens cfg1) (dsets cfg1) (run_ok cfg1) all_runs_ok_cfg1 sc ds Hs Hd) as H.
+  rewrite run_ok_unfold in H. cbv zeta. exact (verdict_recovered _ _ _ _ H).
+Qed.
+
+(* connection 2 (other initial sequence numbers, MTUs, buffers, SACK): every single drop *)
+Theorem single_drops_outcome_bounded_conn2 :
+  forall sc ds, In sc (scens cfg2) -> In ds (singles cfg2 sc) ->
+  let p := pump_run budget orc (fst cfg2) (snd cfg2) sc ds in
+  p_done p = true /\
+  a_rd (p_appB p) = a_wr (p_appA p) /\ a_rd (p_appA p) = a_wr (p_appB p) /\
+  a_eof (p_appA p) = true /\ a_eof (p_appB p) = true /\
+  ((estate (sA (p_sys p)) = stClosed /\ estate (sB (p_sys p)) = stClosed /\
+    no_rst (oA (p_sys p)) = true /\ no_rst (oB (p_sys p)) = true /\
+    (length (oA (p_sys p)) <= margin + fst (nfr cfg2 sc))%nat /\
+    (length (oB (p_sys p)) <= margin + snd (nfr cfg2 sc))%nat /\ lost_final p ds = false)
+   \/
+   (lost_final p ds = true /\ explicit_failure p = true)).
+Proof.
+  intros sc ds Hs Hd.
+  pose proof (forallb2d (scens cfg2) (singles cfg2) (run_ok cfg2) all_singles_ok_cfg2 sc ds Hs Hd) as H.
+  rewrite run_ok_unfold in H. cbv zeta. exact (verdict_spec _ _ _ _ H).
+Qed.
+
+(* the closing-window connection: the drop sets also hit window updates *)
+Theorem closing_window_drops_outcome_bounded :
+  forall sc ds, In sc zw_scens -> In ds (dsets zw_pair sc) ->
+  let p := pump_run budget orc (fst zw_pair) (snd zw_pair) sc ds in
+  p_done p = true /\
+  ((a_rd (p_appB p) = a_wr (p_appA p) /\ a_rd (p_appA p) = a_wr (p_appB p) /\
+    a_eof (p_appA p) = true /\ a_eof (p_appB p) = true /\
+    ((estate (sA (p_sys p)) = stClosed /\ estate (sB (p_sys p)) = stClosed /\
+      no_rst (oA (p_sys p)) = true /\ no_rst (oB (p_sys p)) = true /\
+      (length (oA (p_sys p)) <= margin + fst (nfr zw_pair sc))%nat /\
+      (length (oB (p_sys p)) <= margin + snd (nfr zw_pair sc))%nat)
+     \/ (lost_final p ds = true /\ explicit_failure p = true)))
+   \/ (zw_stalled (sA (p_sys p)) = true \/ zw_stalled (sB (p_sys p)) = true)).
+Proof.
+  intros sc ds Hs Hd.
+  pose proof (forallb2d zw_scens (dsets zw_pair) run_ok_zw all_runs_ok_zw sc ds Hs Hd) as H.
+  rewrite run_ok_zw_unfold in H. cbv zeta. exact (verdict_zw_spec _ _ _ _ H).
 Qed.
 
 (* ---------------------------------------------------------------- refutations (witnesses) *)
-
-Definition cfg1 : tcp * tcp := nth 0 configs (fresh 0 0, fresh 0 0).
 
 (* NOT every single drop is recovered to closed/closed: A first, 75 bytes in two chunks, 5 bytes back;
    A's 7th frame (index 6) is its acknowledgement of B's FIN, after which A is closed.  Dropping it
    leaves B retransmitting its FIN to an endpoint that ignores it; after 10 expiries B fails. *)
 Theorem single_drop_final_ack_refuted :
-  exists c sc ds, In c configs /\ In sc (scens c) /\ ds = [(true, 6%nat)] /\
-    let p := pump_run budget orc (fst c) (snd c) sc ds in
+  exists sc ds, In sc (scens cfg1) /\ In ds (dsets cfg1 sc) /\ ds = [(true, 6%nat)] /\
+    let p := pump_run budget orc (fst cfg1) (snd cfg1) sc ds in
     p_done p = true /\ delivered p = true /\
     estate (sA (p_sys p)) = stClosed /\ estate (sB (p_sys p)) = stError /\
     length (oA (p_sys p)) = 7%nat /\
@@ -359,8 +148,8 @@ Theorem single_drop_final_ack_refuted :
     length (filter (fun m => match m with MAppB ARto => true | _ => false end) (p_moves p)) = 10%nat /\
     nrst p = 1%nat.
 Proof.
-  exists cfg1, (scenario 0 75 2 5), [(true, 6%nat)].
-  split; [vm_compute; left; reflexivity|].
+  exists (scenario 0 75 2 5), [(true, 6%nat)].
+  split; [vm_compute; do 5 right; left; reflexivity|].
   split; [vm_compute; do 7 right; left; reflexivity|].
   split; [reflexivity|]. vm_compute. repeat split; reflexivity.
 Qed.
@@ -370,14 +159,6 @@ Qed.
    application has read.  Dropping that one frame leaves both endpoints connected for ever: A has 16
    bytes queued behind a zero window, nothing in flight, no timer; the pump stops with nothing left
    to do (no frame to deliver, no application call that can proceed, no timer to fire). *)
-Definition zw_cfg : option (tcp * tcp) := est_pair 4294967290 2147483640 88 88 4096 4096 64 4096 false false.
-
-Definition zw_stalled (t : tcp) : bool :=
-  let s := SN t in
-  (estate t =? stConnected) && (sndUna s =? sndNxt s) && negb (tstate s =? tEnabled) &&
-  (outstanding s <? cwnd s) && (sndWnd s =? 0) &&
-  match wunsent s with w :: _ => negb (len (w_data w) =? 0) | [] => false end.
-
 Theorem window_update_drop_stalls_refuted :
   exists a0 b0, zw_cfg = Some (a0, b0) /\
     recovered (pump_run budget orc a0 b0 (scenario 0 80 1 5) []) = true /\
@@ -393,91 +174,3 @@ Proof.
   vm_compute in E. injection E as <- <-.
   vm_compute. repeat split; try reflexivity; discriminate.
 Qed.
-
-(* ---------------------------------------------------------------- the closing-window domain *)
-
-(* The same enumeration for a connection whose receiver's window CLOSES during the transfer (B's
-   receive buffer is 64 bytes) - the drop sets now also hit window updates.
-     domain: the connection [zw_cfg] x 4 close orders x w1 in {64 = exactly the window, 65, 80,
-             100 in two chunks} x w2 in {0, 5} (32 scenarios) x every drop set of at most two frames
-             among the first 12 of either side (301)                                  (9 632 pumped runs)
-   Outcome for every element: the pump stops within the budget and EITHER everything is delivered
-   with end of stream both ways and both endpoints end closed without a reset (or, the last frame of
-   an endpoint that closed being lost, its peer fails explicitly) OR the run ends in the KNOWN
-   zero-window stall: an endpoint stays connected with data queued behind a zero window, nothing in
-   flight and no timer running (there is no persist timer; 381 of the 9 632 runs). *)
-Definition zw_pair : tcp * tcp := match zw_cfg with Some p => p | None => (fresh 0 0, fresh 0 0) end.
-
-Definition zw_scens : list scen :=
-  flat_map (fun order =>
-    flat_map (fun w1c => map (fun w2 => scenario order (fst w1c) (snd w1c) w2) [0; 5])
-             [(64, 1%nat); (65, 1%nat); (80, 1%nat); (100, 2%nat)])
-    [0; 1; 2; 3].
-
-Definition stalled (p : pst) : bool := zw_stalled (sA (p_sys p)) || zw_stalled (sB (p_sys p)).
-
-Definition verdict_zw (p : pst) (ds : dropset) : bool :=
-  p_done p &&
-  ((delivered p && (closed_closed p || (lost_final p ds && explicit_failure p))) || stalled p).
-
-Definition check_zw (sc : scen) (ds : dropset) : bool :=
-  verdict_zw (pump_run budget orc (fst zw_pair) (snd zw_pair) sc ds) ds.
-
-Lemma check_zw_unfold sc ds :
-  check_zw sc ds = verdict_zw (pump_run budget orc (fst zw_pair) (snd zw_pair) sc ds) ds.
-Proof. reflexivity. Qed.
-
-Lemma forallb2 {B C} (lb : list B) (lc : list C) (chk : B -> C -> bool) :
-  forallb (fun b => forallb (chk b) lc) lb = true -> forall b c, In b lb -> In c lc -> chk b c = true.
-Proof.
-  intros H b c Hb Hc.
-  rewrite forallb_forall in H. specialize (H b Hb). cbv beta in H.
-  rewrite forallb_forall in H. exact (H c Hc).
-Qed.
-
-Lemma check_zw_all_true : forallb (fun b => forallb (check_zw b) (drop_sets K)) zw_scens = true.
-Proof. vm_cast_no_check (eq_refl true). Qed.
-
-Lemma verdict_zw_spec (p : pst) (ds : dropset) :
-  verdict_zw p ds = true ->
-  p_done p = true /\
-  ((a_rd (p_appB p) = a_wr (p_appA p) /\ a_rd (p_appA p) = a_wr (p_appB p) /\
-    a_eof (p_appA p) = true /\ a_eof (p_appB p) = true /\
-    ((estate (sA (p_sys p)) = stClosed /\ estate (sB (p_sys p)) = stClosed /\
-      no_rst (oA (p_sys p)) = true /\ no_rst (oB (p_sys p)) = true)
-     \/ (lost_final p ds = true /\ explicit_failure p = true)))
-   \/ (zw_stalled (sA (p_sys p)) = true \/ zw_stalled (sB (p_sys p)) = true)).
-Proof.
-  unfold verdict_zw. intros H. apply andb_prop in H. destruct H as [D1 H]. split; [exact D1|].
-  apply orb_prop in H. destruct H as [H|H].
-  - left. apply andb_prop in H. destruct H as [D2 O].
-    destruct (delivered_spec p D2) as (R1 & R2 & E1 & E2 & _).
-    split; [exact R1|]. split; [exact R2|]. split; [exact E1|]. split; [exact E2|].
-    apply orb_prop in O. destruct O as [O|O].
-    + left. unfold closed_closed in O.
-      apply andb_prop in O. destruct O as [O L2]. apply andb_prop in O. destruct O as [O L1].
-      apply andb_prop in O. destruct O as [O N2]. apply andb_prop in O. destruct O as [O N1].
-      apply andb_prop in O. destruct O as [C1 C2].
-      apply Z.eqb_eq in C1. apply Z.eqb_eq in C2. repeat split; assumption.
-    + right. apply andb_prop in O. destruct O as [O1 O2]. split; assumption.
-  - right. unfold stalled in H. apply orb_prop in H. exact H.
-Qed.
-
-Theorem closing_window_drops_outcome_bounded :
-  forall sc ds, In sc zw_scens -> In ds (drop_sets K) ->
-  let p := pump_run budget orc (fst zw_pair) (snd zw_pair) sc ds in
-  p_done p = true /\
-  ((a_rd (p_appB p) = a_wr (p_appA p) /\ a_rd (p_appA p) = a_wr (p_appB p) /\
-    a_eof (p_appA p) = true /\ a_eof (p_appB p) = true /\
-    ((estate (sA (p_sys p)) = stClosed /\ estate (sB (p_sys p)) = stClosed /\
-      no_rst (oA (p_sys p)) = true /\ no_rst (oB (p_sys p)) = true)
-     \/ (lost_final p ds = true /\ explicit_failure p = true)))
-   \/ (zw_stalled (sA (p_sys p)) = true \/ zw_stalled (sB (p_sys p)) = true)).
-Proof.
-  intros sc ds Hs Hd.
-  pose proof (forallb2 zw_scens (drop_sets K) check_zw check_zw_all_true sc ds Hs Hd) as H.
-  rewrite check_zw_unfold in H. cbv zeta. exact (verdict_zw_spec _ _ H).
-Qed.
-
-Example zw_domain_size : length zw_scens = 32%nat /\ zw_cfg <> None.
-Proof. split; [reflexivity|vm_compute; discriminate]. Qed.
